@@ -8,10 +8,11 @@ from hypothesis import strategies as st
 from ECAgent.Core import Model, System
 from ECAgent import Batching
 from ECAgent.Batching import ParameterList, ScoreMode, grid_search
-from vf.engine import Violation, InvalidCase
+from vf.engine import Violation, InvalidCase, quiesce
 from vf.fixtures import check
 
 PROPERTY = "C16"
+CASE_TIMEOUT_S = 20      # a case normally takes < 0.2 s; see DESIGN.md 2.9 (hang handling)
 BUDGET = {"quick": 600, "thorough": 1500}
 RULE = ("1-6 parameter combinations (grid a x b, or a alone), each with its own tuple of per-repetition scores served by a "
         "fixture model on its k-th instantiation (so a reused model or a skipped repetition shows); scores: ints of any "
@@ -82,6 +83,13 @@ def _close(got, exact, scale, n):
 
 
 def run_case(case):
+    try:
+        return _run_case(case)
+    finally:
+        quiesce()
+
+
+def _run_case(case):
     is_float = bool(case.get("float"))
     combos = [[_val(v, is_float) for v in c] for c in case["scores"]]
     na, nb = int(case["na"]), int(case["nb"])
